@@ -641,6 +641,25 @@ def _g2(ctx: Context) -> None:
         desc="IpPairing.subscribe: every normal exit issued the request for the whole argument, or took a documented "
         "fall-back (supports_subscribe is False; AccessoryDisconnectedError while connecting)",
     )
+    # ---- (c') "cut off" means: the request was on its way.  Inside _update_subscriptions an AccessoryDisconnectedError may
+    # leave only from the request itself (the awaited put); a connection check moved into it fails with the same class before
+    # anything was sent, and subscribe() - which cannot tell the two apart - would switch push off for good
+    ucfg = ctx.cfg(upd.qualname)
+    put_nodes = {n.id for n, _c in ctx.nodes_calling_name(ucfg, "put_json")} | {n.id for n, _c in ctx.nodes_calling_name(ucfg, "put")}
+    if put_nodes and ade_edges_req:
+        early_ade = None
+        for n in ucfg.nodes:
+            if n.id in put_nodes:
+                continue
+            for d_, l_, x_ in n.succ:
+                if l_ == "x" and x_ and ctx.prog.is_subclass(x_, ADE) and (d_ == ucfg.xexit.id or ucfg.xexit.id in ucfg.reachable_from(d_, avoid_nodes=())) \
+                        and ucfg.find_path(ucfg.entry.id, n.id, avoid_nodes=put_nodes) is not None:
+                    early_ade = early_ade or n
+        ck.check(R, early_ade is None, "_update_subscriptions: an AccessoryDisconnectedError leaves only from the request itself (or after it)",
+                 f"{ctx.fkey(upd)}:disconnected-before-request",
+                 f"_update_subscriptions: `{early_ade.text()[:60] if early_ade else ''}` can raise AccessoryDisconnectedError before any request was sent; IpPairing.subscribe treats every "
+                 "AccessoryDisconnectedError from _update_subscriptions as a cut-off subscription request and switches push off for good (supports_subscribe = False): a mere "
+                 "failure to connect then disables re-subscription after the next successful connection", ctx.loc(upd, early_ade) if early_ade else upd.loc())
     # ---- (d) payload and send loop
     _payloads(ctx, R, upd)
     # ---- (e) who may write supports_subscribe / subscriptions
@@ -1635,4 +1654,11 @@ VARIANTS += [
     {"name": "event body decoded outside the try (pinned defect)", "file": "aiohomekit/controller/ip/connection.py",
      "old": "        try:\n            decoded = event.body.decode(\"utf-8\")\n            if not decoded:\n                return\n            parsed = hkjson.loads(decoded)",
      "new": "        decoded = event.body.decode(\"utf-8\")\n        try:\n            if not decoded:\n                return\n            parsed = hkjson.loads(decoded)", "expect": "C12.X2"},
+]
+
+VARIANTS += [
+    {"name": "connection check moved into _update_subscriptions (a failure to connect is taken for a cut-off request)", "file": _PF,
+     "old": '        """Subscribe or unsubscribe to characteristics."""\n        status = {}\n',
+     "new": '        """Subscribe or unsubscribe to characteristics."""\n        await self._ensure_connected()\n        status = {}\n',
+     "expect": "C12.G2"},
 ]
